@@ -117,6 +117,13 @@ func buildAuction(e *env.Env, prefix string, sp aSpec) *aState {
 		if !st.allowed[owner] {
 			nd.Assume(false) // R6: bidder must be allow-listed
 		}
+		// RI R6: stored bidder strings are canonical (PlaceBid stores AccAddress.String(); proved inductive by
+		// H_PlaceBid "C10.bid-bidder-stored-canonically"). Parameter spellings=1 re-creates the pre-fix state space
+		// (a7d... "fix: store bidder addresses in their canonical spelling") for regression experiments only.
+		ownerStr := user(owner)
+		if nd.Param("spellings", 0) == 1 && nd.Pick(bp+"upper", 2) == 1 {
+			ownerStr = userUpper(owner)
+		}
 		var b types.Bid
 		if sp.batch {
 			typ := types.BidTypeBatchWorth
@@ -131,14 +138,14 @@ func buildAuction(e *env.Env, prefix string, sp aSpec) *aState {
 			if !sp.flagsFalse {
 				flag = nd.Bool(bp + "matched")
 			}
-			b = types.Bid{AuctionId: sp.id, Id: uint64(i + 1), Bidder: user(owner), Type: typ, Price: price,
+			b = types.Bid{AuctionId: sp.id, Id: uint64(i + 1), Bidder: ownerStr, Type: typ, Price: price,
 				Coin: sdk.NewCoin(denom, posInt(bp+"amt")), IsMatched: flag}
 		} else {
 			denom := denomPay
 			if nd.Pick(bp+"sellDenom", 2) == 1 {
 				denom = denomSell
 			}
-			b = types.Bid{AuctionId: sp.id, Id: uint64(i + 1), Bidder: user(owner), Type: types.BidTypeFixedPrice,
+			b = types.Bid{AuctionId: sp.id, Id: uint64(i + 1), Bidder: ownerStr, Type: types.BidTypeFixedPrice,
 				Price: base.StartPrice, Coin: sdk.NewCoin(denom, posInt(bp+"amt")), IsMatched: true}
 		}
 		setBid(e, b)
